@@ -749,3 +749,61 @@ func init() {
 		}
 	}
 }
+
+// bytealg.Count / CountString and CompareString are assembly: modelled on byte-array strings by forking per byte.
+func extCountByte(fr *frame, args []value) value {
+	bs, ok := toBytes(args[0])
+	if !ok {
+		if v, isSlice := args[0].([]value); isSlice {
+			bs = v
+		} else {
+			panic(unsupported(fmt.Sprintf("bytealg.Count on %T", args[0])))
+		}
+	}
+	n := 0
+	for _, b := range bs {
+		switch eq := fr.i.x.byteEq(b, args[1]).(type) {
+		case bool:
+			if eq {
+				n++
+			}
+		case sym:
+			if fr.i.x.decide(eq, "count-byte") {
+				n++
+			}
+		}
+	}
+	return n
+}
+
+func extCompareString(fr *frame, args []value) value {
+	a, b := args[0], args[1]
+	if as, ok := a.(string); ok {
+		if bs, ok := b.(string); ok {
+			return strings.Compare(as, bs)
+		}
+	}
+	x := fr.i.x
+	dec := func(v value, why string) bool {
+		switch v := v.(type) {
+		case bool:
+			return v
+		case sym:
+			return x.decide(v, why)
+		}
+		panic(unsupported("compare-string"))
+	}
+	if dec(x.symStringBinop(token.EQL, a, b), "compare-string-eq") {
+		return 0
+	}
+	if dec(x.symStringBinop(token.LSS, a, b), "compare-string-lt") {
+		return -1
+	}
+	return 1
+}
+
+func init() {
+	externals["internal/bytealg.CountString"] = extCountByte
+	externals["internal/bytealg.Count"] = extCountByte
+	externals["internal/bytealg.CompareString"] = extCompareString
+}
